@@ -365,8 +365,8 @@ def check_datagram(data: bytes, count_calls: bool = True) -> Tuple[Optional[str]
         repr(msg)
     except BaseException as e:  # noqa: BLE001 - totality: nothing may escape
         sys.setprofile(None)
-        if isinstance(e, (KeyboardInterrupt, SystemExit)):
-            raise
+        if isinstance(e, (KeyboardInterrupt, SystemExit)) or type(e).__name__ == "WatchdogTimeout":
+            raise  # (the watchdog: this datagram makes the decoder spin - reported by the caller as non-terminating)
         return f"{type(e).__name__} escaped the decoder: {str(e)[:200]}", "exception", counter.n
     budget = budget_for(data)
     if count_calls and counter.n > budget:
